@@ -32,12 +32,15 @@ type planReader struct {
 	eofWith bool
 	failAt  int // -1: never
 	failErr error
+	once    bool // the failure is transient: reported once, then the data continues
+	failed  bool
 	reads   int
 }
 
 func (r *planReader) Read(p []byte) (int, error) {
 	r.reads++
-	if r.failAt >= 0 && r.pos >= r.failAt {
+	if r.failAt >= 0 && r.pos >= r.failAt && !(r.once && r.failed) {
+		r.failed = true
 		if r.failErr != nil {
 			return 0, r.failErr
 		}
@@ -60,7 +63,7 @@ func (r *planReader) Read(p []byte) (int, error) {
 			}
 		}
 	}
-	if r.failAt >= 0 && end > r.failAt {
+	if r.failAt >= 0 && end > r.failAt && !(r.once && r.failed) {
 		end = r.failAt
 	}
 	if end-r.pos > len(p) {
@@ -68,7 +71,7 @@ func (r *planReader) Read(p []byte) (int, error) {
 	}
 	n := copy(p, r.data[r.pos:end])
 	r.pos += n
-	if r.pos == len(r.data) && r.eofWith && r.failAt < 0 {
+	if r.pos == len(r.data) && r.eofWith && (r.failAt < 0 || (r.once && r.failed)) {
 		return n, io.EOF
 	}
 	return n, nil
@@ -159,10 +162,13 @@ func c19Reader(c *mc.Ctx) {
 		// (with planned cuts the opaque error only: the error value and the cut positions do not interact)
 		if mode != 0 {
 			pr.failErr = c19FaultErrs[c.Pick("error-value", len(c19FaultErrs))]
+			// a transient failure: one Read reports the error, later Reads deliver the rest (a
+			// peek that forgets the error it was given lets the traversal run on as if nothing happened)
+			pr.once = c.Pick("transient", 2) == 1
 		}
 	}
 	c.Case(func() string {
-		return fmt.Sprintf("reader doc=%s (%d bytes: %q) delivery=%d cuts=%v eofWithData=%v failAt=%d failWith=%v", d.name, n, clipBytes(d.data, 60), mode, cutList, pr.eofWith, pr.failAt, pr.failErr)
+		return fmt.Sprintf("reader doc=%s (%d bytes: %q) delivery=%d cuts=%v eofWithData=%v failAt=%d failWith=%v transient=%v", d.name, n, clipBytes(d.data, 60), mode, cutList, pr.eofWith, pr.failAt, pr.failErr, pr.once)
 	})
 	c.Class("reader/" + d.name)
 	// whole-buffer baseline
